@@ -228,8 +228,8 @@ PROPS["C08"] = dict(
                 "harness's own base64url+BIGNUM reading of the JWK; metadata is compared with what the JWK states; foreign members "
                 "must leave PEM and metadata unchanged"),
     level_note="the pool is fixed and committed (corner shapes chosen on purpose); random regeneration would be sampling",
-    rule=("evaluations = import calls; non-trivial = distinct JWK texts imported without error and compared; the counter "
-          "noncanonical_encodings_refused reports zero-padded/minimal encodings the importer declined (permitted)"),
+    rule=("evaluations = import calls; non-trivial = distinct JWK texts imported without error and compared; zero-padded and "
+          "minimal-length integer encodings are named by the quantifier and must import as well"),
     runs=lambda tier: [dict(harness="jwk", args=["--param", 0])],
     bound=dict(quick="all pool keys x all single and pairwise dimension sweeps; oct 1-512", thorough="plus the full product for 6 representative keys"),
     assumptions=["GnuTLS has no JWK importer of its own (it uses the OpenSSL one), so only provider 0 is run"],
@@ -264,13 +264,17 @@ PROPS["C06"] = dict(
                 "decoder, incl. the correct HS256 MAC) under five checker configurations, plus 2- and 4-segment assemblies; (b) the "
                 "complete single-byte neighbourhood (every position x every byte substituted and inserted, every deletion and "
                 "truncation) of one valid token per configuration; (c) one token per segment length 0-300 and around 4 Ki / 64 Ki; "
-                "(d) every string of length <= 6 over {. = e A - ! 0x80}.  Every call must return (watchdog), without sanitizer "
+                "(d) every string of length <= 6 over {. = e A - ! 0x80}; (e) a signature of every decoded length 0-300 (and around 384, 512) "
+                "under every header x nine checker configurations (P-256/384/521, Ed25519/Ed448, RSA PKCS1/PSS, oct, none).  Everything "
+                "is run twice per provider: under ASan/UBSan, and with a guard-page allocator installed through jwt_set_alloc so that "
+                "over-reads by uninstrumented provider code fault as well.  Every call must return (watchdog), without sanitizer "
                 "report or leak, and may return 0 only if ref_token finds two dots, a header that decodes to a JSON object with a "
                 "known string alg, and a payload that decodes to JSON"),
     level_note="bounded-exhaustive, not 'all byte strings up to tens of kilobytes': random and coverage-guided generation are a different family and are not used",
     rule=("evaluations = jwt_checker_verify calls judged; non-trivial = calls that returned 0 and passed the well-formedness "
           "reference (counter); cases group the inputs by family"),
-    runs=_both_providers("parse"),
+    runs=lambda tier: [dict(harness="parse", args=["--param", 0]), dict(harness="parse", args=["--param", 1]),
+                       dict(harness="parse", args=["--param", 2]), dict(harness="parse", args=["--param", 3])],
     bound=dict(quick="product + assemblies; d=1 neighbourhood at every 2nd (RS256: 6th) position; lengths 0-300, 4 Ki, 64 Ki; all strings <= 6", thorough="d=1 neighbourhood at every position; more lengths"),
     assumptions=["ref_token uses jansson's json_loadb over the whole decoded length as the definition of JSON"],
     budget_s=dict(quick=900, thorough=3000),
@@ -313,4 +317,46 @@ PROPS["C12"] = dict(
     bound=dict(quick="12 common pairs; RSA signature bit flips deferred", thorough="all common pairs, all classes"),
     assumptions=["mbedTLS is not compiled on this image: its name and id must be refused"],
     budget_s=dict(quick=900, thorough=3000),
+)
+
+# ---------------------------------------------------------------- C05
+PROPS["C05"] = dict(
+    level="exploration",
+    technique="exhaustive enumeration of key/algorithm x (signing provider, verifying provider) x a bounded-exhaustive JSON tree family on the real builder and checker; ECDSA nonces owned by a seeded DRBG",
+    level_text=("29 (key, algorithm) pairs (oct 32-200 bytes, RSA 2048-4096 incl. e=3, 33-bit e and RSA-PSS keys, P-256/384/521 incl. "
+                "leading-zero keys, secp256k1, Ed25519, Ed448) x all four provider pairs x every JSON tree of depth <= 2 / width <= 2 "
+                "over 17 leaves (integer extremes, reals, empty/UTF-8/escaped strings, booleans, null, empty containers) plus 4 Ki / 64 Ki "
+                "strings, as header and claim values, under all eight iat/nbf/exp option combinations: the token must verify, the "
+                "reference must find the signature valid and of RFC 7518 width, and the header and claims a checker callback reads "
+                "must be json_equal to the builder input plus alg/typ/iat/nbf/exp.  With libcrypto's RNG replaced by a counter DRBG, "
+                "2 000 (quick) / 20 000 (thorough) ECDSA signatures per curve and provider are generated and classified by the "
+                "number of leading zero bytes of r and s; every signature with a short r or s is verified under both providers"),
+    level_note="the r/s length classes, not the nonces, are what is covered; classes reached are reported as counters (GnuTLS's RNG cannot be replaced)",
+    rule=("evaluations = tokens generated + verifications; non-trivial = cases (pair, provider pair, chunk of trees); "
+          "roundtrips_content_equal counts full content comparisons that passed"),
+    runs=lambda tier: [dict(harness="roundtrip")],
+    bound=dict(quick="every 29th tree (about 50 of 1 448) for every pair and provider pair; 2 000 ECDSA signatures per curve/provider",
+               thorough="all trees; 20 000 ECDSA signatures per curve/provider"),
+    assumptions=["fixed committed key pool instead of freshly generated keys (DESIGN 2.6)"],
+    budget_s=dict(quick=900, thorough=3300),
+)
+
+# ---------------------------------------------------------------- C10
+PROPS["C10"] = dict(
+    level="model_checking",
+    technique="explicit-state BFS over builder call histories (dedup on the canonical builder state) on the real builder, ref_builder model advanced in lock-step, every token decoded by an independent reference",
+    level_text=("breadth-first search over histories of 30 builder operations (header/claim set and delete incl. iat/nbf/exp/alg/typ "
+                "names, enable_iat, time_offset with negative/zero/positive and invalid arguments, setkey none/oct/ES256/public, four "
+                "callbacks, generate at two clock values) to depth 4 (quick) / until the frontier closes (thorough: all 12 288 reachable builder states); every history is replayed on a fresh real "
+                "builder; every token is split into exactly three canonical unpadded base64url parts, header and payload are compared "
+                "(json_equal) with what ref_builder computes (alg forced, typ defaulted on signed tokens only, iat/nbf/exp "
+                "overriding, callback edits in that token only), the signature is checked by ref_crypto, and the builder's "
+                "GET_JSON snapshots before and after generate must be identical"),
+    level_note="ref_builder = bmodel_step() + check_generate() in harness/roundtrip.c; states merged on everything generate can read",
+    rule=("states = distinct builder states; transitions = state x operation, each executed on the real builder by replaying the "
+          "state's shortest history and observed through generate at two clocks; evaluations = generate calls compared"),
+    runs=lambda tier: [dict(harness="roundtrip", args=["--param", 0])] + ([dict(harness="roundtrip", args=["--param", 1])] if tier == "thorough" else []),
+    bound=dict(quick="depth 4", thorough="frontier closed (all reachable states of the alphabet; depth bound 16 not reached), both providers"),
+    assumptions=["clock values T0 and T0+1000 stand for arbitrary clocks"],
+    budget_s=dict(quick=900, thorough=3300),
 )
